@@ -22,9 +22,7 @@ ASSUMPTIONS = [
     "for mesh bases the line carries the elements of the constructed MeshBasis (its pruning is C05's subject)",
     "order of permutations inside one level is not compared (canonical forms sort complete levels)",
 ]
-PARTIAL = ["is_subclass with a mesh basis on the right (uses p1.get_perm()): evaluated by correspondence only "
-           "(is_subclass_correct is proved for classical bases)",
-           "the driver's string layer and iterator registry (parsing, canonical printing, St.yielded) is glue: the Proc-level "
+PARTIAL = ["the driver's string layer and iterator registry (parsing, canonical printing, St.yielded) is glue: the Proc-level "
            "statements (av_refines_spec, first_correct, upTo_iter_correct, iterTake_pieces) are proved, the glue is evaluated"]
 TRUSTED = ["dict insertion order / frozenset iteration order are not relied on: outputs are order-insensitive canonical forms"]
 
